@@ -62,10 +62,16 @@ func shrink(b []byte, fails func([]byte) bool) []byte {
 	return cur
 }
 
+// monitors that also run on every byte string of length <= 5 (thorough: 6) over byteAlphabet
+var byteExhaustive = map[string]bool{"C05": true, "C06": true, "C09": true, "C10": true, "C12": true, "C14": true}
+
 func runMonitor(prop string, m monitor, cs *caseSource, thorough bool) monitorResult {
 	res := monitorResult{Property: prop, Failures: []failure{}}
 	seenFail := map[string]bool{}
 	handle := func(i int, gc genCase) {
+		if prop == "C11" && len(gc.input) > 700 {
+			return // the monitor re-segments at every reported boundary: quadratic
+		}
 		res.Evaluations++
 		if len(res.Samples) < 3 && len(gc.input) > 0 {
 			res.Samples = append(res.Samples, fmt.Sprintf("%+q", string(gc.input)))
@@ -83,6 +89,18 @@ func runMonitor(prop string, m monitor, cs *caseSource, thorough bool) monitorRe
 		}
 	}
 	cs.each(handle)
+	longMax := 6000
+	if prop == "C11" {
+		longMax = 600 // the monitor re-segments at every reported boundary: quadratic
+	}
+	cs.eachLong(cs.n/400, longMax, handle)
+	if byteExhaustive[prop] {
+		n := 5
+		if thorough {
+			n = 6
+		}
+		byteSequences(n, func(b []byte) { handle(-3, genCase{input: b, kind: "bytes", tplIdx: -1}) })
+	}
 	if thorough {
 		for _, alg := range []byte("GWSL") {
 			shortSequences(alg, 3, func(b []byte) { handle(-1, genCase{input: b, kind: "short", tplIdx: -1}) })
@@ -101,9 +119,7 @@ func runMonitorC13(cs *caseSource) monitorResult {
 			res.Failures = append(res.Failures, failure{Property: "C13", Check: "monitor", InputHex: "-", Quoted: `""`, Ops: ops, Detail: msg, Index: -1, Kind: "empty"})
 		}
 	}
-	cs.each(func(i int, gc genCase) {
-		r := newRng(cs.seed, "C13ops", uint64(i))
-		ops := genIterOps(r)
+	one := func(i int, gc genCase, ops string) {
 		res.Evaluations++
 		if len(res.Samples) < 3 {
 			res.Samples = append(res.Samples, fmt.Sprintf("%+q %s", string(gc.input), ops))
@@ -115,7 +131,17 @@ func runMonitorC13(cs *caseSource) monitorResult {
 				res.Failures = append(res.Failures, failure{Property: "C13", Check: "monitor", InputHex: hx(small), Quoted: fmt.Sprintf("%+q", string(small)), Ops: ops, Detail: monC13ops(small, ops), Index: i, Kind: gc.kind})
 			}
 		}
-	})
+	}
+	handle := func(i int, gc genCase) {
+		r := newRng(cs.seed, "C13ops", uint64(i))
+		one(i, gc, genIterOps(r))
+		// a complete pass with every accessor after every Next, then past the end, Reset and one more cluster
+		if n := utf8.RuneCount(gc.input); n > 0 && (i%3 == 0 || len(gc.input) > 200) {
+			one(i, gc, strings.Repeat("N", n+2)+"RN")
+		}
+	}
+	cs.each(handle)
+	cs.eachLong(cs.n/400, 6000, handle)
 	return res
 }
 
@@ -226,7 +252,7 @@ func main() {
 		return
 	}
 
-	mons := map[string]monitor{"C05": monC05, "C08": monC08, "C09": monC09, "C10": monC10, "C11": monC11, "C12": monC12, "C14": monC14, "C15": monC15}
+	mons := map[string]monitor{"C01": monC01, "C05": monC05, "C06": monC06, "C08": monC08, "C09": monC09, "C10": monC10, "C11": monC11, "C12": monC12, "C14": monC14, "C15": monC15}
 
 	if *replayHex != "" {
 		var b []byte
@@ -292,6 +318,8 @@ func main() {
 			res.Stages = append(res.Stages, stageE2(*driverPath, algSet(*e2props)))
 		case "E3":
 			res.Stages = append(res.Stages, stageE3(d, thorough, algSet(*algs)))
+		case "E3c":
+			res.Stages = append(res.Stages, stageE3c())
 		case "E3b":
 			res.Stages = append(res.Stages, stageE3b(thorough))
 		case "E4":
